@@ -201,9 +201,18 @@ def main():
     ap.add_argument('--tier', default=os.environ.get('VERIF_TIER', 'quick'))
     ap.add_argument('--replay')
     ap.add_argument('--build-only', action='store_true')
+    ap.add_argument('--coqchk', action='store_true', help='re-check every compiled file with the independent checker and print the axioms')
     ap.add_argument('--seed', type=int, default=int(os.environ.get('VERIF_SEED', '20260927')))
     args = ap.parse_args()
 
+    if args.coqchk:
+        st = build(full=False)
+        mods = ['JP.' + os.path.basename(f)[:-2] for f in prop_files()]
+        p = subprocess.run(['coqchk', '-silent', '-o', '-Q', COQ, 'JP'] + mods, capture_output=True, text=True, timeout=7200)
+        out = p.stdout + p.stderr
+        open(os.path.join(BUILD, 'coqchk.log'), 'w').write(out)
+        sys.stdout.write(out[-3000:])
+        sys.exit(p.returncode)
     if args.build_only:
         st = build(full=True)
         bad = forbidden_vernacular()
